@@ -792,6 +792,24 @@ def smc_family():
             want = lj(True)[x1, x2] - logq(x1, x2)
             if not close(pc.get_log_weights(), want):
                 fail(f"{label}: log-weight != log p(particle, observations) - log proposal density", got=pc.get_log_weights(), want=want)
+    # the SampleDistribution face: random_weighted(key, target') returns only what target' leaves unconstrained, whatever the
+    # algorithm's own target constrains; the evidence estimate averages over ALL particles, those of weight zero included
+    from genjax._src.inference.smc import ParticleCollection
+    for label, alg in (("Importance", Importance(target)), ("ImportanceK", ImportanceK(target, full_proposal, 4))):
+        for t2, want_addrs in ((Target(model, (), C.kw(y=True, x2=1)), {"x1"}), (Target(model, (), C.kw(x1=2)), {"x2", "y"})):
+            _, ch = alg.random_weighted(jrand.key(3), t2)
+            got = {a for a in ("x1", "x2", "y") if a in ch}
+            if got != want_addrs:
+                fail(f"{label}.random_weighted: the returned choices are not exactly those the GIVEN target leaves unconstrained",
+                     got=sorted(got), want=sorted(want_addrs))
+    pc0 = Importance(target).run_smc(jrand.key(0))
+    stacked = jax.tree_util.tree_map(lambda v: jnp.stack([v[0]] * 4), pc0.get_particles())
+    for lw in ([-jnp.inf, 0.0, -jnp.inf, jnp.log(2.0)], [0.0, 0.0, 0.0, 0.0], [-jnp.inf, -1.0, -2.0, -3.0]):
+        lw = jnp.array(lw)
+        got = ParticleCollection(stacked, lw, jnp.array(True)).get_log_marginal_likelihood_estimate()
+        if not close(got, jnp.log(jnp.mean(jnp.exp(lw)))):
+            fail("ParticleCollection: the log evidence estimate is not the log of the MEAN weight over all particles", log_weights=lw,
+                 got=got, want=jnp.log(jnp.mean(jnp.exp(lw))))
     # ChangeTarget: new target observes fewer / other values at the same addresses
     t_old = Target(model, (), C.kw(y=True, x2=1))
     for label, t_new, newlj in (("same addresses, other value", Target(model, (), C.kw(y=False, x2=1)), lambda a, b: lj(False)[a, b]),
@@ -1131,6 +1149,21 @@ def derived_family():
     if not same(a, b):
         fail("StaticRequest{x: Update} differs from the equivalent Update (unaddressed sites downstream of the change)", w=a[1], want=b[1],
              score=a[0].get_score(), want_score=b[0].get_score())
+    # a StaticRequest under changed arguments: the new trace holds the NEW arguments (an empty one is an EmptyRequest)
+    for sr_ in (StaticRequest({}), StaticRequest({"z": Update(C.choice(0.4))})):
+        n_ = sr_.edit(key, tr, Diff.unknown_change((1.1,)))
+        if not close(n_[0].get_args()[0], 1.1):
+            fail("StaticRequest with changed arguments: the new trace does not hold the new arguments", args=n_[0].get_args()[0], want=1.1)
+        if not close(n_[1], n_[0].get_score() - tr.get_score()):
+            fail("StaticRequest with changed arguments: weight != score change", w=n_[1])
+    # the backward request of a StaticRequest that addresses a LATER site only / lists the sites out of program order
+    for addressed in ({"z": Update(C.choice(0.4))}, {"z": Update(C.choice(0.4)), "x": Update(C.choice(-0.2))}):
+        f_ = StaticRequest(addressed).edit(key, tr, Diff.no_change((0.3,)))
+        back = f_[3].edit(jrand.fold_in(key, 5), f_[0], Diff.no_change((0.3,)))
+        if not (close(back[1], -f_[1]) and close(back[0].get_score(), tr.get_score())
+                and all(close(back[0].get_choices()[a_], tr.get_choices()[a_]) for a_ in ("x", "z"))):
+            fail("StaticRequest: the backward request does not restore the addressed sites with weight -w", sites=sorted(addressed),
+                 w=f_[1], w_back=back[1])
 
 
 def stateful_family():
@@ -1781,7 +1814,7 @@ def selection_family():
 FAMILIES = [
     (("C19.Mask.", "Mask._or_idx"), mask_algebra_family), (("C18.", ".AndSel.", ".OrSel.", ".ComplementSel."), selection_family), ((".Diff.",), diff_family),
     (("C30.",), vi_family), (("C29.", "TailCallADEVPrimitive", "eval_jaxpr_adev"), adev_family), (("C28.", "sample_momenta"), hmc_family), (("C20.", "FlagOp", "multi_switch", "tree_choose"), staging_family), (("C33.",), invalid_subset_family),
-    (("C38.",), derived_family), (("C36.",), stateful_family), (("C09.", "incremental"), incremental_family), (("C04.",), key_family), (("C21.",), pytree_family), (("C25.", "Marginal"), marginal_family), (("C27.", "Rejuvenate"), rejuvenate_family), (("C31.",), time_travel_family), (("C17.",), choice_map_family), (("C26.",), smc_family),
+    (("C38.", ".EmptyRequest.", "edit_static_request"), derived_family), (("C36.",), stateful_family), (("C09.", "incremental"), incremental_family), (("C04.",), key_family), (("C21.",), pytree_family), (("C25.", "Marginal"), marginal_family), (("C27.", "Rejuvenate"), rejuvenate_family), (("C31.",), time_travel_family), (("C17.",), choice_map_family), (("C26.",), smc_family),
     (("MaskCombinator", "MaskTrace"), mask_family), (("Distribution", "ExactDensity", "C24."), distribution_family),
     (("Dimap",), dimap_family), (("Switch", ".or_else.", ".mix."), switch_family), (("Vmap", "repeat"), vmap_family),
     (("Scan", "iterate", "accumulate", "reduce", "masked_iterate"), scan_family),
